@@ -7,6 +7,7 @@
 import CdiProofs.Lemmas.Path
 import CdiProofs.Lemmas.Parser
 import CdiModel.NamesSpec
+import CdiProofs.Props.C01
 namespace Cdi.Names
 open Cdi Cdi.Path Cdi.Parser
 
@@ -207,5 +208,15 @@ example : writePath [lit "/etc/cdi", lit "/var/run/cdi"] (lit "vendor.com-gpu_a_
     some (lit "/var/run/cdi/vendor.com-gpu_a_b.yaml") := by decide
 example : singleComponent (generateTransientSpecName (lit "vendor.com") (lit "gpu") (lit "../../etc/passwd")) = true := by
   decide
+
+/-- **C16 (the written file takes precedence)**: `writePath` puts the file into the last configured directory
+(`C16_confined`), whose priority - its index - is above that of every other directory. By C01 the resolution of a
+name is the `winner` among its definitions; if the written file's definition `r` is the only one at that priority
+(I7: no other file of the last directory defines the device), every other definition lies strictly below it and
+the device resolves to the written file - however many files of the other directories define it, in conflict
+with each other or not. -/
+theorem C16_precedence (pre post : List Cache.Ref) (r : Cache.Ref)
+    (h : ∀ x ∈ pre ++ post, x.prio < r.prio) : Cache.winner (pre ++ r :: post) = some r :=
+  Cache.C01_strict_top_wins pre post r h
 
 end Cdi.Names
